@@ -188,6 +188,8 @@ type Entry struct {
 	// without Close, or failing at sink offset failAt), then Reset(s) it onto a
 	// new buffer and writes rows; it returns the second file.
 	ReuseWrite func(prior any, priorOps []gen.Op, priorMode string, failAt int, rows any, opts []parquet.WriterOption, ops []gen.Op) ([]byte, error)
+	// OpenReader opens an incremental GenericReader[T].
+	OpenReader func(data []byte, opts ...parquet.FileOption) (*Reader, error)
 	// ReadFunc reads the file through parquet.Read[T].
 	ReadFunc func(data []byte) (any, error)
 	// ReaderRead reads the file row by row through Reader.Read(&T).
@@ -456,6 +458,23 @@ func register[T any](name string) {
 			}
 		}
 	}
+	e.OpenReader = func(data []byte, opts ...parquet.FileOption) (*Reader, error) {
+		f, err := parquet.OpenFile(bytes.NewReader(data), int64(len(data)), opts...)
+		if err != nil {
+			return nil, err
+		}
+		r := parquet.NewGenericReader[T](f)
+		return &Reader{
+			Read: func(n int) (any, error) {
+				buf := make([]T, n)
+				k, err := r.Read(buf)
+				return buf[:k], err
+			},
+			Seek:    r.SeekToRow,
+			Close:   r.Close,
+			NumRows: r.NumRows(),
+		}, nil
+	}
 	e.ReadFunc = func(data []byte) (any, error) {
 		rows, err := parquet.Read[T](bytes.NewReader(data), int64(len(data)))
 		return rows, err
@@ -506,6 +525,14 @@ func (f *FailingWriter) Write(p []byte) (int, error) {
 	n, _ := f.W.Write(p[:room])
 	f.N += n
 	return n, ErrSink
+}
+
+// Reader is a type-erased GenericReader[T].
+type Reader struct {
+	Read    func(n int) (any, error)
+	Seek    func(int64) error
+	Close   func() error
+	NumRows int64
 }
 
 // WriteError marks an error returned by the library's write path.
